@@ -491,3 +491,24 @@ def run(ctx):
     from .balance import sizing_instances
     ctx.rule("R13.7", "the top-up sizing is <payout> - (balance + the figure it is handed): nothing that depends on the collateral kind or on the in-flight records", 1)
     sizing_instances(ctx, em, "R13.7", reply_keys=())
+
+
+    # R13.6 (second kind): a margin pull - a non-fee amount handed to the constructor of the cw20 TransferFrom - is sent as
+    # a message only by the cw20 deployment (the native arm of the same branch just raises SentFunds.required), so it must
+    # not be emitted with amount zero: cw20 rejects the zero TransferFrom and refuses the trade, the native twin
+    # (required += 0) executes it.  (Blind sweep: `margin_to_vault > 0` weakened to `>= 0` in the increase reply.)
+    from .nonzero import movers_of
+    from .c03 import transfers_of as _transfers_of
+
+    def is_pull_constructor(fn, args2):
+        # (decided at the call: a constructor merged for pull and push builds the TransferFrom only for some arguments)
+        try:
+            for s_ in model.reachable_submsgs(ix, fn, ix.param_map(fn, list(args2))):
+                if any(k_ == "cw20-transfer-from" for (k_, _p, _r, _a) in _transfers_of(ix, s_)):
+                    return True
+        except Exception:
+            pass
+        return False
+    nonzero_instances(ctx, em, "R13.6", "every fee message of an Open / Close chain carries a fee that is non-zero by a path fact (a zero bank send is rejected where the cw20 transfer of zero is not); every margin pull is non-zero as well", 5,
+                      lambda ckey: ckey.startswith(("OpenPosition>", "ClosePosition>")), "the cw20 deployment refuses the trade (zero TransferFrom) while the native twin, which only raises the required funds by zero, executes it",
+                      select=lambda v: not is_fee_amount13(v), target_select=is_pull_constructor)
